@@ -73,13 +73,13 @@ CLAIMS = {
         "technique": RM,
     },
     "C10": {
-        "text": "Optimality and tie-breaking checked against an own distance/argmin for every explored (colour, palette); thorough tier enumerates all 2^24 RGB values for both targets and 27 palettes (built-in, random, near-built-in, permuted built-in, bright-repeats-normal, entries one step apart, all-one-corner, one slot recoloured), quick tier a lattice plus near-candidate random colours over 31 palettes.  All finite conversions exhaustive in both tiers.",
+        "text": "Optimality and tie-breaking checked against an own distance/argmin for every explored (colour, palette); thorough tier enumerates all 2^24 RGB values for both targets and 29 palettes (built-in, random, near-built-in, permuted built-in, bright-repeats-normal, entries one step apart, all-one-corner, one slot recoloured, pastel, dark), quick tier a lattice plus near-candidate random colours over 33 palettes.  All finite conversions exhaustive in both tiers.",
         "design_ref": "7 C10, 3.3, 8.10",
         "note": "the integer red-mean weights are taken as the specification of the metric",
         "technique": RM + " (exhaustive over 2^24 colours in the thorough tier)",
     },
     "C11": {
-        "text": "Accept/reject, denotation, error variant and the word the error names compared with an independent recogniser (with several offending words any of them may be the one reported) on exhaustive word combinations, hex near-misses (incl. signs and non-ASCII), single-edit mutations, words glued together or behind doubled negation prefixes, seeded sentences and arbitrary Unicode; print/parse round trip for every expressible style sampled.",
+        "text": "Accept/reject, denotation, error variant and the word the error names compared with an independent recogniser (with several offending words any of them may be the one reported) on exhaustive word combinations, hex near-misses (incl. signs and non-ASCII), single-edit mutations, words glued together or behind doubled negation prefixes, letters replaced by case-folding confusables, the same description repeated in different letter cases, seeded sentences and arbitrary Unicode; print/parse round trip for every expressible style sampled.",
         "design_ref": "7 C11, 3.4, 8.6",
         "note": "inputs whose meaning the statement leaves open are checked for panics only",
         "technique": RM,
